@@ -11,9 +11,14 @@ interleaving of the individual loads and compare-and-swaps, including arbitraril
 namespace UtilModel.Treiber
 open UtilModel UtilModel.Lin
 
+theorem filterMap_toHO (h : List Obs) : h.filterMap Obs.toHO = h.map Obs.toH := by
+  induction h with
+  | nil => rfl
+  | cons o os ih => simp [Obs.toHO, ih]
+
 /-- the decorated trace of a run: observables plus a marker at every linearization point
 (successful CAS / load of an empty `top`) -/
-def decorated (es : List Ev) : List (LEv SOp SRes) := decorate model Obs.toH linOf model.init es
+def decorated (es : List Ev) : List (LEv SOp SRes) := decorate model Obs.toHO linOf model.init es
 
 /-- **`treiber_refines_stack` (C12).** For every run of the model, the decorated trace is accepted
 by the linearization checker of the sequential LIFO stack — i.e. every successful CAS / empty load
@@ -24,19 +29,20 @@ the sequential stack is the list of values reachable from `top`. -/
 theorem treiber_refines_stack (es : List Ev) (s : St) (h : model.run model.init es = some s) :
     ∃ ms, (linMon stackSpec).run (linMon stackSpec).init (decorated es) = some ms ∧
       Denotes s.heap s.top ms.st ∧ ms.calls = s.th.map TS.cs := by
-  obtain ⟨ms, hm, hR⟩ := decorate_sim model stackSpec Obs.toH linOf Rel
+  obtain ⟨ms, hm, hR⟩ := decorate_sim model stackSpec Obs.toHO linOf Rel
     (fun s e s' ms hR hs => sim_step s e s' ms hR hs) es model.init _ s rel_init h
   exact ⟨ms, hm, hR.den, hR.calls⟩
 
 /-- the markers are the only thing `decorated` adds to the observable trace -/
 theorem decorated_proj (es : List Ev) (s : St) (h : model.run model.init es = some s) :
-    (decorated es).filterMap LEv.toH = (es.filterMap model.obs).map Obs.toH :=
-  decorate_proj model Obs.toH linOf _ _ es h
+    (decorated es).filterMap LEv.toH = (es.filterMap model.obs).map Obs.toH := by
+  rw [← filterMap_toHO]; exact decorate_proj model Obs.toHO linOf _ _ es h
 
 /-- **C12 (observable form).** Every observable trace of the model is a linearizable LIFO history. -/
 theorem treiber_linearizable (es : List Ev) (s : St) (h : model.run model.init es = some s) :
-    Linearizable stackSpec ((es.filterMap model.obs).map Obs.toH) :=
-  linearizable_of_sim model stackSpec Obs.toH linOf Rel rel_init
+    Linearizable stackSpec ((es.filterMap model.obs).map Obs.toH) := by
+  rw [← filterMap_toHO]
+  exact linearizable_of_sim model stackSpec Obs.toHO linOf Rel rel_init
     (fun s e s' ms hR hs => sim_step s e s' ms hR hs) es s h
 
 /-- **`lincheck_sound` (C12).** A history that the driver accepts (trace inclusion in this model,
@@ -58,7 +64,7 @@ theorem lincheck_sound_textbook (cap fuel : Nat) (h : List Obs) (ha : model.acce
 node; no call panics. -/
 theorem no_crash (es : List Ev) (s : St) (h : model.run model.init es = some s) (t : Nat) :
     s.th[t]? ≠ some .crashed := by
-  obtain ⟨ms, _, hR⟩ := decorate_sim model stackSpec Obs.toH linOf Rel
+  obtain ⟨ms, _, hR⟩ := decorate_sim model stackSpec Obs.toHO linOf Rel
     (fun s e s' ms hR hs => sim_step s e s' ms hR hs) es model.init _ s rel_init h
   exact hR.nocrash t
 
